@@ -161,12 +161,7 @@ func checkLive(c liveCase) (o pbt.Outcome) {
 	nsCfg.SupportMultiQuery = c.Multi
 	var ierr error
 	if p := pbt.Catch(func() { ierr = px.Install(nsCfg) }); p != "" {
-		detail := fmt.Sprintf("installing a namespace with black_sql %q panicked: %s", baseText, p)
-		if id := classifyPanic(c.Base, p); id != "" {
-			o.Known, o.KnownWhat = id, detail
-			return
-		}
-		o.Violation = detail
+		o.Violation = fmt.Sprintf("installing a namespace with black_sql %q panicked: %s", baseText, p)
 		return
 	}
 	if ierr != nil {
@@ -201,14 +196,7 @@ func checkLive(c liveCase) (o pbt.Outcome) {
 		text := apply(target, v.Edits, nil)
 		var allowedByFunction bool
 		if p := pbt.Catch(func() { allowedByFunction = ns.IsSQLAllowed(util.NewRequestContext(), text) }); p != "" {
-			detail := fmt.Sprintf("variant %d: IsSQLAllowed(%q) panicked: %s", i, text, p)
-			if id := classifyPanic(target, p); id != "" {
-				if firstKnown == "" {
-					firstKnown, firstKnownWhat = id, detail
-				}
-				continue
-			}
-			o.Violation = detail
+			o.Violation = fmt.Sprintf("variant %d: IsSQLAllowed(%q) panicked: %s", i, text, p)
 			return
 		}
 		kind := "equivalent"
@@ -279,14 +267,8 @@ func checkLive(c liveCase) (o pbt.Outcome) {
 			if res.Err == nil || reached {
 				detail := fmt.Sprintf("blacklisted %q; equivalent variant sent as %s %q: IsSQLAllowed rejects it, but the live proxy answered err=%v and the backend received %q",
 					baseText, v.Mode, sent, res.Err, reachedSQL)
-				if v.Mode == "second" {
-					// F10: with multi-statement support the blacklist is consulted with the fingerprint of the whole packet
-					if firstKnown == "" {
-						firstKnown, firstKnownWhat = "C36-F10", detail
-					}
-					o.Labels = append(o.Labels, "live_known_C36-F10")
-					continue
-				}
+				// (C36-F10, the packet fingerprint used for every piece of a multi-statement packet, was
+				// repaired in /repo; a recurrence is a plain violation)
 				o.Violation = detail
 				return
 			}
